@@ -14,7 +14,7 @@ CLS = [
     ("maxliterals-truncation", r"maxlits|maxlen|^C17 \\d:\\d"),
     ("casefold-non-ascii", r"\(\?i\)"),
     ("illformed-utf8-not-consumed", r"^C15 |\(tx\|lo\|md\)"),
-    ("nonword-boundary-multibyte", r"^C\d\d \\B "),
+    ("nonword-boundary-multibyte", r"^C\d\d \\B |^C\d\d \.\{2\} "),
     ("casefold-non-ascii", r"\(\?i\)"),
     ("literalprefix-differs", r"LiteralPrefix"),
 ]
